@@ -46,7 +46,10 @@ def shrink(mod, case, res, budget_s=60):
             for c in batch:
                 f.write(json.dumps(c) + "\n")
         try:
-            reran = core.run_harness(mod.HARNESS, replay=fn, extra=getattr(mod, "HARNESS_EXTRA", []))
+            if getattr(mod, "generate", None):
+                reran = mod.rerun(batch)
+            else:
+                reran = core.run_harness(mod.HARNESS, replay=fn, extra=getattr(mod, "HARNESS_EXTRA", []))
             rr = evaluate(mod, reran)
         except Exception:
             break
@@ -79,13 +82,19 @@ def standard_check(mod, tier, seed, replay=None):
         pre = getattr(mod, "prepare", None)
         if pre:
             pre(tier, seed)
+        gen = getattr(mod, "generate", None)
         if replay:
             with open(replay) as f:
                 rp = json.load(f)
-            fn = os.path.join(core.scratch(), "replay-in.jsonl")
-            with open(fn, "w") as f:
-                f.write(json.dumps(rp["input"]) + "\n")
-            cases = core.run_harness(mod.HARNESS, replay=fn, extra=getattr(mod, "HARNESS_EXTRA", []))
+            if gen:
+                cases = mod.rerun([rp["input"]])
+            else:
+                fn = os.path.join(core.scratch(), "replay-in.jsonl")
+                with open(fn, "w") as f:
+                    f.write(json.dumps(rp["input"]) + "\n")
+                cases = core.run_harness(mod.HARNESS, replay=fn, extra=getattr(mod, "HARNESS_EXTRA", []))
+        elif gen:
+            cases = gen(tier, seed)
         else:
             corpus = load_corpus(mod)
             for fn in corpus:
